@@ -54,10 +54,10 @@ PROPS["C07"]["streams"] = PROPS["C07"]["streams"] + [("crowd", 120), ("kf", 80)]
 PROPS["C08"]["streams"] = PROPS["C08"]["streams"] + [("restart", 160)]
 # scale streams (scripts.py): sizes, counts and ages far beyond the random walk's
 for _pid, _l in {"C01": [("scale-msgs", 5), ("reuse-after-prune", 32)], "C02": [("scale-apps", 3), ("scale-msgs", 5), ("scale-subs", 2), ("stale-ns", 24), ("reuse-after-prune", 24)],
-                 "C03": [("stale-ns", 32)],
+                 "C03": [("stale-ns", 32), ("np-cross", 48)],
                  "C04": [("scale-name", 3)], "C05": [("scale-time", 5), ("late-sweep", 48), ("sweep", 120), ("crowd-retry", 64), ("reuse-after-prune", 32)], "C06": [("scale-apps", 3)],
-                 "C07": [("scale-time", 5)], "C08": [("reuse-after-prune", 32)], "C11": [("scale-apps", 3), ("stale-ns", 24), ("reuse-after-prune", 32)], "C12": [("scale-subs", 4), ("scale-time", 5), ("late-sweep", 48), ("stale-ns", 24)],
-                 "C13": [("scale-msgs", 5), ("kf-q", 120), ("two-app", 80)], "C15": [("scale-time", 5)], "C17": [("scale-name", 3)]}.items():
+                 "C07": [("scale-time", 5), ("np-cross", 48)], "C08": [("reuse-after-prune", 32)], "C11": [("scale-apps", 3), ("stale-ns", 24), ("reuse-after-prune", 32)], "C12": [("scale-subs", 4), ("scale-time", 5), ("late-sweep", 48), ("stale-ns", 24), ("dst", 6)],
+                 "C13": [("scale-msgs", 5), ("kf-q", 120), ("two-app", 80), ("dst", 6)], "C15": [("scale-time", 5)], "C17": [("scale-name", 3)]}.items():
     PROPS[_pid]["streams"] = PROPS[_pid]["streams"] + _l
 import metamorphic as MM
 for _pid in MM.CHECKS:
